@@ -101,7 +101,7 @@ func runC05(c *CaseCtx) *CaseResult {
 	cc.CommitEvery = 300
 	cc.DrainAtEnd = c.Case%3 != 0
 	if c.Case%7 >= 5 {
-		cc.BatchStart = []int{2, 3, 4, 5, 7, 12, 40, 150}[r.Intn(8)]
+		cc.BatchStart = []int{2, 3, 4, 5, 6, 7, 9, 12, 40, 150}[r.Intn(10)]
 	}
 	cc.EvictEvery = c.Case / 2 % 2
 	// set-heavy churn: growth and shrink of elements in place (overflow / underflow after update)
@@ -112,6 +112,7 @@ func runC05(c *CaseCtx) *CaseResult {
 		cc.Dig = &DigProfile{Alpha: [4]uint64{0, 3, 2, 0}, Salt: uint64(r.Int63())}
 		cc.Dig.Alpha[0] = uint64(8 + r.Intn(40))
 	}
+	cc.Final = batchFinal
 	res, w, _ := runContainerCase(c, cc)
 	s := w.stats
 	res.NonTrivial = s.NearMax > 0 && s.NearMin > 0 && s.Splits > 0 && s.Merges > 0 && s.MaxRootSlabs >= 3
@@ -486,6 +487,9 @@ func runC09(c *CaseCtx) *CaseResult {
 	cc.EvictEvery = []int{0, 1, 2}[c.Case/2%3]
 	cc.DrainAtEnd = c.Case%3 != 2
 	cc.DrainedIsOneSlab = true
+	if c.Case%5 == 4 {
+		cc.BatchStart = []int{2, 3, 4, 5, 6, 7, 9, 12, 40, 150}[r.Intn(10)]
+	}
 	if kind == "map" {
 		cc.Dig = &DigProfile{Alpha: [4]uint64{uint64(3 + r.Intn(20)), uint64(1 + r.Intn(3)), 2, 0}, Salt: uint64(r.Int63())}
 		cc.Prof.KeySpace = 150
@@ -495,12 +499,15 @@ func runC09(c *CaseCtx) *CaseResult {
 		[]Phase{PhaseGrow, PhaseChurn, PhaseDrain, PhaseGrow, {Name: "pop", Insert: 10, Set: 10, Remove: 20, Read: 4, Meta: 2, Pop: 6}, PhaseDrain},
 		[]int{28, 20, 16, 16, 8, 12})
 	cc.Final = func(w *World, root *Node, res *CaseResult) {
+		// containers that come out of the batch constructors must not leave anything behind either
+		err := w.batchBytes(3)
 		// Emptying the container must release every auxiliary slab: drain and count.
-		var err error
-		if root.Kind == KArr {
-			err = w.OpArrayPop(root)
-		} else {
-			err = w.OpMapPop(root)
+		if err == nil {
+			if root.Kind == KArr {
+				err = w.OpArrayPop(root)
+			} else {
+				err = w.OpMapPop(root)
+			}
 		}
 		if err == nil {
 			err = w.CheckTree(true)
